@@ -610,6 +610,7 @@ func (s *sim) lruPush(x int) {
 // ---------------------------------------------------------------- settle
 
 var stackBuf = make([]byte, 1<<17)
+var lastDump string
 
 // scanBubble classifies the goroutines of the caller's bubble (other than the caller):
 // busy = running/runnable/anything not known to be blocked, mutexW = blocked on a sync mutex.
@@ -619,6 +620,9 @@ func scanBubble() (busy, mutexW int) {
 		n := runtime.Stack(stackBuf, true)
 		if n < len(stackBuf) {
 			b = stackBuf[:n]
+			if os.Getenv("MSIM_DEBUG") != "" {
+				lastDump = string(b)
+			}
 			break
 		}
 		stackBuf = make([]byte, 2*len(stackBuf))
@@ -660,8 +664,10 @@ func scanBubble() (busy, mutexW int) {
 			mutexW++
 		case strings.HasPrefix(st, "chan receive"), strings.HasPrefix(st, "chan send"), strings.HasPrefix(st, "select"),
 			strings.HasPrefix(st, "sync.WaitGroup.Wait"), strings.HasPrefix(st, "sync.Cond.Wait"), strings.HasPrefix(st, "sleep"),
-			strings.HasPrefix(st, "synctest.Run"), strings.HasPrefix(st, "synctest.Wait"), strings.HasPrefix(st, "semacquire"):
+			strings.HasPrefix(st, "synctest.Run"), strings.HasPrefix(st, "synctest.Wait"):
 		default:
+			// includes "semacquire": a goroutine that starts a GC cycle waits for the world
+			// semaphore, which this very stack dump holds
 			busy++
 		}
 	}
@@ -683,6 +689,16 @@ func (s *sim) settle() {
 		busy, mw := scanBubble()
 		if busy == 0 {
 			s.mutexW = mw
+			if os.Getenv("MSIM_DEBUG") != "" {
+				d0 := lastDump
+				for k := 0; k < 200; k++ {
+					runtime.Gosched()
+					if b2, _ := scanBubble(); b2 > 0 {
+						fmt.Fprintf(os.Stderr, "ANOMALY quiet then busy (k=%d)\n--- quiet dump\n%s\n--- busy dump\n%s\n", k, d0, lastDump)
+						break
+					}
+				}
+			}
 			break
 		}
 		if i > 5_000_000 {
@@ -856,6 +872,9 @@ func (s *sim) Apply(op simcore.Op) bool {
 			a.err = s.mp.CheckTx(tx, nil, info)
 		}()
 		s.settle()
+		if os.Getenv("MSIM_DEBUG") != "" && s.ver == 0 && !a.done.Load() && s.mutexW == 0 {
+			fmt.Fprintf(os.Stderr, "ANOMALY risk=%v\n%s\n", s.risk, lastDump)
+		}
 		e.Count("op.sub")
 		if s.mutexW > 0 {
 			e.Count("probe.submit_blocked_on_commit_lock")
